@@ -25,11 +25,13 @@ def run(prop, level, generator, rule, assumptions=(), models=(), shards=None):
         for item in generator(chk, mpmath, rng):
             if item is None:
                 skipped += 1
+                ex.take_defs()
                 continue
             j, m = item
+            defs = ex.take_defs()
             eid = len(events)
             try:
-                events.append(enc.event(eid, "oblig", [], m.get("p", 0), "n", enc.sym("none"), pb=0, x={"j": j}))
+                events.append(enc.event(eid, "oblig", [], m.get("p", 0), "n", enc.sym("none"), pb=0, x={"j": j, "defs": defs}))
             except (enc.EncodeRange, ValueError):
                 skipped += 1
                 continue
